@@ -15,6 +15,8 @@ KNOWN_CLASSES = {
     ('C01', 'abort_stack_overflow'): 'C01-recursive-model-cycle',
     ('C16', 'abort_stack_overflow'): 'C01-recursive-model-cycle',
     ('C01', 'synth_name_collision'): 'C06-synthesised-name-collision',
+    ('C06', 'id_case_collision'): 'C06-ids-equal-up-to-case-and-punctuation',
+    ('C01', 'id_case_collision'): 'C06-ids-equal-up-to-case-and-punctuation',
     ('C01', 'panic_parse'): 'C01-service-name-keyword',
     ('C17', 'alias_doc_dropped'): 'C17-description-dropped-on-alias-types',
     ('C04', 'adapter_value_nested'): 'C04-adapter-type-not-a-direct-member',
@@ -27,6 +29,7 @@ COMPILE_CLASSES = {
     'missing_model': 'C07-array-component-inline-items',
     'component_shadows_prelude': 'C02-component-shadows-prelude',
     'operation_named_like_client_method': 'C02-operation-named-like-client-method',
+    'operation_name_collision': 'C06-ids-equal-up-to-case-and-punctuation',   # or the synthesised-name finding: both give one module for two operations
 }
 
 
@@ -40,7 +43,7 @@ def run_shard(args):
 
 
 def load(p, wf=None):
-    res = {}; files = {}
+    res = {}; files = {}; by_path = {}
     for l in open(p):
         q = l.rstrip('\n').split(' ')
         if len(q) >= 3 and q[1] == 'W':
@@ -51,7 +54,15 @@ def load(p, wf=None):
         elif len(q) >= 3 and q[1] == 'R':
             res[q[0]] = q[2]
         elif len(q) >= 4 and q[1] == 'F':
-            files[(q[0], bytes.fromhex(q[2]).decode())] = q[3]
+            key = bytes.fromhex(q[2]).decode()
+            path, _, sec = key.partition('#')
+            if sec == '*':
+                # the whole-file section comes first: a path written a second time (two operations sharing a module)
+                # replaces every section of the earlier version, as the later write replaces the file on disk
+                for k in by_path.pop((q[0], path), []):
+                    files.pop(k, None)
+            by_path.setdefault((q[0], path), []).append((q[0], key))
+            files[(q[0], key)] = q[3]
     return res, files
 
 
@@ -554,6 +565,12 @@ def exec_run(tier, seed, d):
                     disagreements.append({'case': cid, 'props': ('C14',), 'driver': dr['name'], 'what': 'credentials on the executed request differ from Sem/Request.v auth_plan_of',
                                           'executed': sorted(creds), 'model': sorted(want_set), 'spec': spec})
         if dr['kind'] == 'call':
+            # document level: every member of the JSON body that is sent is a property the document declares for this body
+            tplc = ex.get('ops', {}).get(dr['op'])
+            if tplc and len(tplc) > 2 and tplc[2] is not None and isinstance(rec.get('body'), dict):
+                extra = sorted(k for k in rec['body'] if k not in tplc[2])
+                if extra:
+                    findings.append((cid, 'C03', '', f'{what}: the body carries {extra}, the document declares only {sorted(tplc[2])} for this body', spec))
             m = model.get((cid, dr['name']))
             if m is None or not m.startswith('ok:'):
                 disagreements.append({'case': cid, 'props': ('C03',), 'driver': dr['name'], 'what': 'the model has no prediction', 'model': m, 'spec': spec})
@@ -568,7 +585,7 @@ def exec_run(tier, seed, d):
             # libninja's own example: one request to THAT operation
             tpl = ex.get('ops', {}).get(dr['op'])
             if tpl:
-                verb, path = tpl
+                verb, path = tpl[0], tpl[1]
                 rx = '^' + re.sub(r'\\\{[^}]*\\\}', '[^/]+', re.escape(path)) + '$'
                 if rec.get('method') != verb or not re.match(rx, rec.get('url', '')):
                     findings.append((cid, 'C16', '', f'{what}: the request is {rec.get("method")} {rec.get("url")}, the operation is {verb} {path}', spec))
